@@ -39,8 +39,9 @@ type scenario struct {
 	ECSign bool             `json:"ecsign"` // certificate kind the suite needs (from the dumped suite table)
 	Pat    map[string][]int `json:"pat"`    // per writer side: stream byte p = pat[(p / run) mod len(pat)]
 	Run    int              `json:"run"`
-	CT     bool             `json:"ct"` // log full record bodies (C28)
-	TO     int              `json:"to"` // read deadline in ms
+	CT     bool             `json:"ct"`   // log full record bodies (C28)
+	TO     int              `json:"to"`   // read deadline in ms
+	Proc   bool             `json:"proc"` // one call of a process history (cmd proc1): the suite table is whatever the earlier calls made it
 	Ops    []op             `json:"ops"`
 }
 
@@ -217,8 +218,16 @@ func certs() {
 	pkiOnce.Do(func() {
 		pki = hlib.NewPKI()
 		certEC = pki.Std("ecdsa", "example.com")
-		certRSA = pki.Std("rsa", "example.com")
 	})
+}
+
+var rsaOnce sync.Once
+
+// the RSA key is only generated when an RSA suite is actually used (a process history is one short-lived process)
+func rsaCert() tls.Certificate {
+	certs()
+	rsaOnce.Do(func() { certRSA = pki.Std("rsa", "example.com") })
+	return certRSA
 }
 
 func helloSpec(vers, suite uint16) *tls.ClientHelloSpec {
@@ -246,9 +255,9 @@ func (se *session) initHS() map[string]any {
 	sc := se.sc
 	certs()
 	vers, suite := uint16(sc.Vers), uint16(sc.Suite)
-	crt := certRSA
-	if sc.ECSign || vers == tls.VersionTLS13 {
-		crt = certEC
+	crt := certEC
+	if !sc.ECSign && vers != tls.VersionTLS13 {
+		crt = rsaCert()
 	}
 	scfg := &tls.Config{Certificates: []tls.Certificate{crt}, MinVersion: vers, MaxVersion: vers,
 		CipherSuites: []uint16{suite}, SessionTicketsDisabled: true, DynamicRecordSizingDisabled: !sc.Dyn}
@@ -466,7 +475,7 @@ func runScenario(sc *scenario) (evs []map[string]any) {
 		ev = se.initHS()
 	}
 	ev["mode"], ev["vers"], ev["suite"], ev["weak"], ev["dyn"] = sc.Mode, sc.Vers, sc.Suite, sc.Weak, sc.Dyn
-	ev["pat"], ev["run"] = map[string]any{"c": sc.Pat["c"], "s": sc.Pat["s"]}, sc.Run
+	ev["pat"], ev["run"], ev["proc"] = map[string]any{"c": sc.Pat["c"], "s": sc.Pat["s"]}, sc.Run, sc.Proc
 	se.emit(ev)
 	if se.s["c"].conn == nil || se.s["s"].conn == nil {
 		return
@@ -501,8 +510,7 @@ func init() {
 				return fmt.Errorf("scenario %d: bad pattern", sc.Sc)
 			}
 		}
-		certs()
-		hlib.RSAKey()
+		rsaCert()
 		res := make([][]map[string]any, len(req.Scenarios))
 		hlib.Parallel(len(req.Scenarios), func(i int) { res[i] = runScenario(&req.Scenarios[i]) })
 		idx := make([]int, len(res))
